@@ -214,9 +214,20 @@ def _worker(job):
         ctx.undecided("run", "unmodelled: %s%s" % (e, where))
     except Exception as e:
         # an exception escaping from the code under contract (e.g. changed code that no longer fits the stubs of its
-        # callees) leaves this configuration undecided; the property's concrete driver still runs on the real code
+        # callees) leaves this configuration undecided; the property's concrete driver still runs on the real code ...
         tb = "".join(traceback.format_exception(type(e), e, e.__traceback__))
-        ctx.undecided("run", "configuration raised %s: %s | %s" % (type(e).__name__, str(e)[:200], tb[-1200:].replace("\n", " / ")))
+        fr = traceback.extract_tb(e.__traceback__)
+        root = os.path.realpath(os.environ.get("QUCUMBER_REPO", "/repo"))
+        last = fr[-1] if fr else None
+        in_lib = bool(last) and (os.path.realpath(last.filename).startswith(root + os.sep) or last.filename.startswith("<sandbox:"))
+        if in_lib and isinstance(e, (ValueError, RuntimeError, TypeError, AssertionError, NotImplementedError)) and (last.line or "").strip().startswith("raise "):
+            # ... unless the library itself refuses (an explicit `raise` in library code) an input that the harness built
+            # inside the property's domain: the operation is not defined where the property says it is
+            ctx._rec("run/the library refuses an input inside the property's domain", "violated", "harness", 0.0,
+                     {"why": "%s: %s" % (type(e).__name__, str(e)[:300]), "where": "%s:%s" % (os.path.basename(last.filename), last.lineno)},
+                     witness={"exception": repr(e)[:300]})
+        else:
+            ctx.undecided("run", "configuration raised %s: %s | %s" % (type(e).__name__, str(e)[:200], tb[-1200:].replace("\n", " / ")))
     return {"cfg": cfg, "canary": canary, "obls": ctx.obls, "functions": sorted(ctx.functions),
             "stubs": sorted(ctx.stubs), "assumed": sorted(ctx.assumed | st.ASSUMED),
             "prims": dict(st.PRIMS_USED), "generic": sorted(alg.GENERIC_POSITION)[:20],
